@@ -343,6 +343,132 @@ def client_mix_case(ctx, rng):
         sess.close()
 
 
+def backpressure_case(ctx, nchunks=1500, read_bytes=2 << 20, limit=45.0):
+    """Real Transports (server window 32768 bytes): prefetch more READ requests than the server's window holds
+    without reading, wait until SSH flow control has stopped the prefetch thread, then read.  A read that does not
+    come back is a deadlock iff the reader waits for SFTPClient._lock while another thread sits in
+    Channel.send() inside _async_request (checked on the threads' stacks)."""
+    import socket
+    import sys
+    import time
+    import traceback
+
+    from paramiko import (AUTH_SUCCESSFUL, OPEN_SUCCEEDED, ECDSAKey, ServerInterface, SFTPAttributes, SFTPClient,
+                          SFTPHandle, SFTPServer, SFTPServerInterface, Transport)
+    from paramiko.sftp import SFTP_NO_SUCH_FILE
+
+    chunk = 32768
+    size = chunk * nchunks
+
+    class Srv(ServerInterface):
+        def check_auth_password(self, u, p):
+            return AUTH_SUCCESSFUL
+
+        def check_channel_request(self, kind, chanid):
+            return OPEN_SUCCEEDED
+
+    class H(SFTPHandle):
+        def read(self, offset, length):
+            return bytes(max(0, min(length, size - offset)))
+
+        def stat(self):
+            a = SFTPAttributes()
+            a.st_size = size
+            return a
+
+    class FS(SFTPServerInterface):
+        def stat(self, path):
+            if path != "/big":
+                return SFTP_NO_SUCH_FILE
+            a = SFTPAttributes()
+            a.st_size = size
+            a.st_mode = 0o100644
+            return a
+
+        lstat = stat
+
+        def open(self, path, flags, attr):
+            return H(flags) if path == "/big" else SFTP_NO_SUCH_FILE
+
+    import logging
+
+    logging.getLogger("paramiko").setLevel(logging.CRITICAL + 10)  # teardown noise ("Connection reset by peer")
+    socks, sockc = socket.socketpair()
+    ts = Transport(socks, default_window_size=32768)
+    tc = Transport(sockc)
+    desc = {"server_window": 32768, "requests": nchunks, "read_bytes": read_bytes}
+    try:
+        ts.add_server_key(ECDSAKey.generate())
+        ts.set_subsystem_handler("sftp", SFTPServer, FS)
+        ts.start_server(threading.Event(), Srv())
+        tc.connect(username="u", password="p")
+        sftp = SFTPClient.from_transport(tc)
+        f = sftp.open("/big", "rb")
+        first = sftp.request_number
+        f.prefetch(size)
+        # "do something else": until the prefetch thread makes no progress any more (or has sent everything)
+        last, stable, t_end = sftp.request_number, time.time(), time.time() + 30
+        while time.time() < t_end:
+            time.sleep(0.05)
+            cur = sftp.request_number
+            if cur != last:
+                last, stable = cur, time.time()
+            elif time.time() - stable > 1.0:
+                break
+        desc["queued_before_stall"] = last - first
+        box = {}
+
+        def reader():
+            try:
+                got = 0
+                while got < read_bytes:
+                    d = f.read(1 << 20)
+                    if not d:
+                        break
+                    if d.count(b"\0") != len(d):
+                        box["bad"] = True
+                    got += len(d)
+                box["got"] = got
+            except BaseException as e:  # noqa
+                box["exc"] = e
+
+        th = threading.Thread(target=reader, daemon=True, name="pv-bp-reader")
+        th.start()
+        th.join(limit)
+        if not th.is_alive():
+            if "exc" in box:
+                return desc, ("backpressure-read-raises:" + L.exc_kind(box["exc"]), repr(box["exc"]))
+            if box.get("bad") or box.get("got", 0) < min(read_bytes, size):
+                return desc, ("backpressure-read-wrong", repr({k: v for k, v in box.items() if k != "exc"}))
+            return desc, None
+        # not back: is it the lock cycle?
+        frames = sys._current_frames()
+        stacks = {t.name: [fr.name for fr in traceback.extract_stack(frames[t.ident])]
+                  for t in threading.enumerate() if t.ident in frames}
+        rd = stacks.get("pv-bp-reader", [])
+        reader_waits_for_lock = "_read_response" in rd and rd[-1] == "_read_response"
+        sender_in_send = [n for n, st in stacks.items()
+                          if "_async_request" in st and any(x in st for x in ("send", "sendall", "_wait_for_send_window"))]
+        desc["stacks"] = {"reader": rd[-4:], "senders": sender_in_send}
+        if reader_waits_for_lock and sender_in_send and sftp._lock.locked():
+            return desc, ("client-deadlock-under-backpressure",
+                          "read() after prefetch() did not return within %.0f s: the reader waits for SFTPClient._lock "
+                          "in _read_response while thread %s holds it inside Channel.send() (server window used up); "
+                          "%d requests had been queued" % (limit, sender_in_send[0], last - first))
+        raise InfraError("back-pressure session neither finished nor shows the lock cycle: %r" % (desc,))
+    finally:
+        for t in (tc, ts):
+            try:
+                t.close()
+            except Exception:
+                pass
+        for sk in (socks, sockc):
+            try:
+                sk.close()
+            except Exception:
+                pass
+
+
 def run(ctx):
     from pv.props import c29
 
@@ -472,6 +598,15 @@ def run(ctx):
                 ctx.fail("client-mix-wrong-bytes:read", desc, "designed program returned wrong bytes")
         finally:
             sess.close()
+    # back-pressure: more queued requests than the server's channel window holds, then read
+    for _ in range(2 if ctx.thorough else 1):
+        desc, failure = backpressure_case(ctx)
+        ctx.case(("backpressure", desc.get("queued_before_stall")), True)
+        ctx.dist("client-backpressure")
+        ctx.extra["backpressure"] = {k: v for k, v in desc.items() if k != "stacks"}
+        ctx.sample({"backpressure": {k: v for k, v in desc.items() if k != "stacks"}})
+        if failure:
+            ctx.fail(failure[0], desc, failure[1])
     n_mix = 500 if ctx.thorough else 80
     for i in range(n_mix):
         desc, failure = client_mix_case(ctx, rng)
@@ -493,7 +628,11 @@ META = {
               "and its helpers can emit is valid for that branch (table regenerated from the AST each run: "
               "source_branches_emit_valid_types), and the model stays within that table. Client: no call ever waits "
               "with nothing outstanding, for every program mixing pipelined writes, plain writes, other requests and "
-              "closes (client_never_waits_forever). Tied by raw-request differential runs against the real server loop "
+              "closes (client_never_waits_forever); under channel back-pressure, with the client lock and the two flow-controlled "
+              "directions as resources, no reachable state is stuck before everything is done and every step uses up work "
+              "(client_never_blocks_under_backpressure, backpressure_steps_decrease_work) — given the source fact, read "
+              "from the AST each run, that _async_request sends the packet outside the _lock region "
+              "(send_under_lock_deadlocks_witness shows the deadlock otherwise). Tied by raw-request differential runs against the real server loop "
               "and by the C29 lockstep client runs."),
     "note": ("Trusted: Lean kernel + 3 standard axioms; the abstraction of callbacks/decoders into (handle kind, "
              "result/code/raise) — 'exactly one send per path' inside helpers is covered by the differential run, the "
